@@ -353,6 +353,9 @@ def vector_hooks():
         "method:operator+=": lambda ev, o, a: _inc(o, a[0]),
         "method:operator-=": lambda ev, o, a: _inc(o, -a[0]),
         "__gnu_cxx::operator-*": lambda ev, o, a: a[0].arith("-", a[1]),
+        "std::begin<*": lambda ev, o, a: It(a[0], 0),
+        "std::end<*": lambda ev, o, a: It(a[0], len(a[0].items)),
+        "std::find<*": lambda ev, o, a: next((It(a[0].vec, i) for i in range(a[0].pos, a[1].pos) if ev.binop("==", a[0].vec.items[i], a[2])), a[1].copy_value()),
         "std::min<*": lambda ev, o, a: a[1] if a[1] < a[0] else a[0],
         "std::max<*": lambda ev, o, a: a[1] if a[0] < a[1] else a[0],
     }
@@ -527,6 +530,8 @@ class CxxEvaluator(Evaluator):
                 d = self._default(c)
                 if d is not None:
                     return d
+            if not e.get("a") and c.startswith(("std::vector<", "std::map<", "std::set<")):
+                return Vec([], "vector")
             if not e.get("a") and e.get("implicit") and self.hook_for("ctor:" + c) is None and \
                not (self.prog is not None and (self.prog.funcs.get(e.get("fid")) or {}).get("inits")):
                 return Struct(c, {})       # implicitly default-constructed aggregate: fields are set by whoever fills it
